@@ -121,8 +121,15 @@ def observe(attrs):
 def bad_value(pairs):
     for k, v in pairs:
         if not M.is_sequence_of_str(v):
-            return "value stored for key %r is %r, not a sequence of strings" % (k, v)
+            return "a stored attribute value is not a sequence of strings"
     return None
+
+
+def bad_detail(pairs):
+    for k, v in pairs:
+        if not M.is_sequence_of_str(v):
+            return {"key": k, "stored": repr(v)}
+    return {}
 
 
 def as_lists(pairs):
@@ -169,7 +176,7 @@ def run_json(ctx, case):
         why = "_jsonify did not return text"
     elif bad_value(here) or sorted(k for k, _ in here) != sorted(k for k, _ in want) or dict(as_lists(here)) != dict(want):
         why = bad_value(here) or "attributes of the feature differ from what was set"
-        extra = {"got": as_lists(here) if not bad_value(here) else repr(here), "expected": want}
+        extra = bad_detail(here) or {"got": as_lists(here), "expected": want}
     else:
         order = [k for k, _ in here]
         want = [[k, dict(want)[k]] for k in order]
@@ -520,7 +527,7 @@ def prepared(ctx, case, dbs):
         ctx.violation(case, {"why": "obtaining the feature raised %s" % type(ex).__name__, "exception": repr(ex)})
         return None
     if bad_value(start):
-        ctx.violation(case, {"why": "freshly obtained feature: " + bad_value(start)})
+        ctx.violation(case, dict({"why": "freshly obtained feature: " + bad_value(start)}, **bad_detail(start)))
         return None
     model = M.Model(as_lists(start))
     for n, op in enumerate(case["ops"]):
@@ -586,6 +593,7 @@ def run_set(ctx, case):
                     ctx.mon("set: %s-set values" % form[0])
         if bad_value(now):
             why = bad_value(now)
+            extra = bad_detail(now)
         elif len(now) != len(want) or any(k not in want or list(v) != want[k] for k, v in now):
             why = "stored values differ from what was set"
             extra = {"got": as_lists(now), "expected": model.pairs()}
